@@ -221,7 +221,21 @@ def arrays_lib():
     return m
 
 
-def run_pipeline(case, producers_first=True):
+def _np_scalar(rng, v):
+    """the same number as a numpy scalar of some width (what an API caller may pass), when it is exactly representable there"""
+    if isinstance(v, bool) or not isinstance(v, (int, float)):
+        return v
+    for t in rng.sample([numpy.float32, numpy.float64, numpy.float16, numpy.int32, numpy.int64], 5):
+        try:
+            w = t(v)
+        except (OverflowError, ValueError):
+            continue
+        if float(w) == float(v) and (isinstance(v, float) or numpy.issubdtype(t, numpy.integer)):
+            return w
+    return v
+
+
+def run_pipeline(case, producers_first=True, rng=None, whole_run=False):
     """The same case through the whole pipeline: a Program whose producer commands hand out the input arrays, the command under test added
     with its arguments as the parser would deliver them (numbers, words, ListArguments), evaluated through `.result` - i.e. through
     `Command.run`, `validate_params` and every parameter cleaner.  Returns a dict like run_impl; raw exceptions raised inside the body arrive
@@ -253,9 +267,12 @@ def run_pipeline(case, producers_first=True):
         args["B"] = Argument("B", names[1], ARG_LINE0 + 1)
     else:
         args["InFieldNames"] = ListArgument("InFieldNames", list(names), ARG_LINE0, [ARG_LINE0] * len(names))
+    np_params = rng is not None and rng.random() < 0.25
     for k in pmap:
         if k in case.params:
             v = case.params[k]
+            if np_params:
+                v = [_np_scalar(rng, x) for x in v] if isinstance(v, (list, tuple)) else _np_scalar(rng, v)
             args[k] = ListArgument(k, list(v), ARG_LINE0 + 5, [ARG_LINE0 + 5] * len(v)) if isinstance(v, (list, tuple)) else Argument(k, v, ARG_LINE0 + 5)
     out = {"inputs_after": inputs, "program": p}
     with warnings.catch_warnings():
@@ -266,6 +283,8 @@ def run_pipeline(case, producers_first=True):
             if producers_first:
                 for i in sorted(copies):
                     p.commands["I%d" % i].result
+            if whole_run:
+                p.run()
             r = p.commands["R"].result
             out.update(status="ok", result=r, vis=common.vis_arr(r))
         except UnexpectedError as e:
@@ -327,7 +346,7 @@ def compare(out, answer, tol=common.TOL):
 QUARTERS = [Fraction(n, 4) for n in range(-8, 9)]          # -2 .. 2
 FUZZY_LATTICE = [Fraction(n, 4) for n in range(-4, 5)]      # -1 .. 1
 INTS = list(range(-3, 6))
-PAYLOADS = [1e20, -1e20, 0.0, 1.0, -1.0, 0.5, 7.0, -9999.0, 3.0]
+PAYLOADS = [1e20, -1e20, 0.0, 1.0, -1.0, 0.5, 7.0, -9999.0, 3.0, 1.7976931348623157e+308, -1.7976931348623157e+308, 1e200]
 SHAPES = [(1,), (2,), (3,), (4,), (5,), (7,), (1, 1), (1, 3), (2, 2), (3, 1), (2, 3), (1, 1, 1), (2, 1, 2), (1, 2, 3), (2, 2, 2)]
 
 
@@ -681,7 +700,7 @@ def gen_chains(rng, count, consumers=None, style="wild"):
     return cases
 
 
-def run_stream(ctx, model, cases, stream, tol=common.TOL, on_result=None, rerun=True, narrow=True, pipeline=True):
+def run_stream(ctx, model, cases, stream, tol=common.TOL, on_result=None, rerun=True, narrow=True, pipeline=True, layout=True):
     """runs cases on implementation and model, records disagreements; calls on_result(case, out, answer)"""
     outs = []
     kept = []
@@ -717,17 +736,38 @@ def run_stream(ctx, model, cases, stream, tol=common.TOL, on_result=None, rerun=
         if pipeline and not trivial:
             # the same arguments through Program / Command.run / validate_params / the parameter cleaners: what the body is given, and what
             # comes back, must be what a direct call of the body gives (an argument equal to 0, "" or [] is still an argument)
-            piped = run_pipeline(c, producers_first=bool(ctx.rng.random() < 0.7))
+            direct = out
+            cc = c
+            if out["status"] == "ok" and ctx.rng.random() < 0.2 and all(a.dtype == numpy.float64 for a in c.inputs) and c.inputs:
+                # single-precision inputs (lattice values are exact there): body and pipeline must still agree with each other
+                with numpy.errstate(all="ignore"):
+                    cc = Case(c.cmd, c.params, [numpy.ma.array(numpy.ma.getdata(a).astype(numpy.float32), mask=numpy.ma.getmaskarray(a).copy()) for a in c.inputs])
+                direct = run_impl(cc)
+                ctx.count("pipeline_twins_float32")
+            piped = run_pipeline(cc, producers_first=bool(ctx.rng.random() < 0.7), rng=ctx.rng, whole_run=bool(ctx.rng.random() < 0.5))
             ctx.count("pipeline_twins")
-            d = pipeline_differs(out, piped)
+            d = pipeline_differs(direct, piped)
             if d:
                 ctx.fail("%s: evaluated inside a Program (arguments cleaned, body run by Command.run) the outcome differs from the body's own: %s" % (c.cmd, d), c.describe())
             else:
-                for before, after in zip(c.inputs, piped["inputs_after"]):
+                for before, after in zip(cc.inputs, piped["inputs_after"]):
                     if not (numpy.array_equal(numpy.ma.getmaskarray(before), numpy.ma.getmaskarray(after)) and
                             numpy.array_equal(numpy.ma.getdata(before)[~numpy.ma.getmaskarray(before)], numpy.ma.getdata(after)[~numpy.ma.getmaskarray(after)])):
                         ctx.fail("%s: evaluated inside a Program, the stored result of one of its inputs changed" % c.cmd, c.describe())
                         break
+        if layout and out["status"] == "ok" and c.inputs and c.inputs[0].ndim >= 2 and ctx.rng.random() < 0.5:
+            # the same cells in another memory layout (Fortran order, or a transposed view of the transposed data)
+            def relayout(a):
+                d, m = numpy.ma.getdata(a), numpy.ma.getmaskarray(a)
+                if ctx.rng.random() < 0.5:
+                    return numpy.ma.array(numpy.asfortranarray(d), mask=numpy.asfortranarray(m))
+                return numpy.ma.array(numpy.ascontiguousarray(d.T).T, mask=numpy.ascontiguousarray(m.T).T)
+            twin = Case(c.cmd, c.params, [relayout(a) for a in c.inputs])
+            out3 = run_impl(twin, copy_inputs=False)
+            ctx.count("layout_twins")
+            d = _same(out, out3)
+            if d:
+                ctx.fail("%s: the same cells in another memory layout give a different result (%s)" % (c.cmd, d), c.describe())
         if narrow and out["status"] == "ok" and out["vis"][1] == "f" and any(a.dtype == numpy.int64 for a in c.inputs):
             # the same integer values held in a narrower integer type (what a NetCDF byte/short variable or a typed array delivers):
             # a floating result must not depend on the width or signedness of the integers it was computed from
